@@ -1145,7 +1145,9 @@ func (e *EngineImpl) checkAndGetDBPTInfo(db string, ptId uint32) (*DBPTInfo, err
 	if err := e.checkAndAddRefPTNoLock(db, ptId); err != nil {
 		return nil, err
 	}
-	defer e.unrefDBPT(db, ptId)
+	// e.mu.RLock is held until this function returns: release the reference without taking it again (a second
+	// RLock deadlocks with a writer that started waiting in between)
+	defer e.unrefDBPTNoLock(db, ptId)
 
 	dbPTInfo := e.DBPartitions[db][ptId]
 	return dbPTInfo, nil
